@@ -20,37 +20,40 @@ namespace BV.C04
 the empty directory or satisfies `Inv` (marker ancestor-or-equal of the
 persisted tip ∧ blocks between marker and tip stored ∧ persisted utxo = fold to
 the marker ∧ tip block stored ∧ index rows closed under parent). -/
-theorem prefix_invariant (A : UtxoAlg) (hA : A.Lawful) (cfg : Cfg) (ops : List Op) (nd0 : Node A)
+theorem prefix_invariant (A : UtxoAlg) (hA : A.Lawful) (cfg : Cfg) (hp : cfg.prune = none) (ops : List Op)
+    (nd0 : Node A)
     (h0 : recover cfg (Image.empty A) = .ok nd0) (k : Nat) :
     Inv' (replay (Image.empty A) ((runOps cfg nd0 ops).log.take k)) := by
   obtain ⟨nd0', r0, g0, _⟩ := recover_empty_spec (A := A) cfg
   rw [r0] at h0
   have hnd : nd0' = nd0 := by injection h0
   subst hnd
-  exact (runOps_spec hA cfg ops nd0' g0).1.core.sound k
+  exact (runOps_spec hA cfg hp ops nd0' g0).1.core.sound k
 
 /-- For every workload and EVERY prefix length `k` of its commit list, reopening
 (with any cache configuration `cfg'`) succeeds and yields a tip that a commit of
 the prefix had made active, `utxo = fold (chain tip)`, and an index that knows
 every block whose index row was committed in the prefix. -/
-theorem prefix_recovers (A : UtxoAlg) (hA : A.Lawful) (cfg cfg' : Cfg) (ops : List Op) (nd0 : Node A)
+theorem prefix_recovers (A : UtxoAlg) (hA : A.Lawful) (cfg cfg' : Cfg) (hp : cfg.prune = none) (ops : List Op)
+    (nd0 : Node A)
     (h0 : recover cfg (Image.empty A) = .ok nd0) (k : Nat) :
     ∃ rn, recover cfg' (replay (Image.empty A) ((runOps cfg nd0 ops).log.take k)) = .ok rn ∧
       RecoverOk A (activeTips ((runOps cfg nd0 ops).log.take k)) (rowKeys ((runOps cfg nd0 ops).log.take k))
         ⟨rn.tip, rn.utxo, keys rn.index⟩ :=
-  prefix_recovers_aux hA cfg cfg' ops nd0 h0 k
+  prefix_recovers_aux hA cfg cfg' hp ops nd0 h0 k
 
 /-- A block whose delivery was acknowledged (`ProcessBlock` returned without
 error, on the main or a side chain) has its index row in every crash image taken
 at or after the end of that delivery — so by `prefix_recovers` the reopened
 index knows it. -/
-theorem acked_indexed (A : UtxoAlg) (hA : A.Lawful) (cfg : Cfg) (ops1 ops2 : List Op) (nd0 : Node A)
+theorem acked_indexed (A : UtxoAlg) (hA : A.Lawful) (cfg : Cfg) (hp : cfg.prune = none) (ops1 ops2 : List Op)
+    (nd0 : Node A)
     (h0 : recover cfg (Image.empty A) = .ok nd0) (b : Blk) (p : Chain)
     (hack : (deliver cfg (runOps cfg nd0 ops1) b p).2 = .okMain ∨
             (deliver cfg (runOps cfg nd0 ops1) b p).2 = .okSide)
     (k : Nat) (hk : (deliver cfg (runOps cfg nd0 ops1) b p).1.log.length ≤ k) :
     (b :: p) ∈ rowKeys ((runOps cfg (deliver cfg (runOps cfg nd0 ops1) b p).1 ops2).log.take k) :=
-  acked_indexed_aux hA cfg ops1 ops2 nd0 h0 b p hack k hk
+  acked_indexed_aux hA cfg hp ops1 ops2 nd0 h0 b p hack k hk
 
 /-- Crash during recovery: every image at a commit boundary of the recovery's own
 log satisfies the invariant again, and reopening it yields the same tip with
@@ -68,14 +71,15 @@ chain with `utxo = fold`, i.e. in the same observable state as any other run
 that activated the same block.  What is missing for the full last sentence of
 the property: nothing at start-up or at re-delivery re-activates a heavier
 branch that is already stored (`converges_full_fails`). -/
-theorem converges_partial (A : UtxoAlg) (hA : A.Lawful) (cfg₁ cfg₂ : Cfg) (base₁ base₂ : Image A)
+theorem converges_partial (A : UtxoAlg) (hA : A.Lawful) (cfg₁ cfg₂ : Cfg) (hp₁ : cfg₁.prune = none)
+    (hp₂ : cfg₂.prune = none) (base₁ base₂ : Image A)
     (nd₁ nd₂ : Node A) (g₁ : Good base₁ nd₁) (g₂ : Good base₂ nd₂) (b : Blk) (p : Chain)
     (h₁ : (deliver cfg₁ nd₁ b p).2 = .okMain) (h₂ : (deliver cfg₂ nd₂ b p).2 = .okMain)
     (v₁ : (deliver cfg₁ nd₁ b p).1.tip ≠ nd₁.tip) (v₂ : (deliver cfg₂ nd₂ b p).1.tip ≠ nd₂.tip) :
     (deliver cfg₁ nd₁ b p).1.tip = (deliver cfg₂ nd₂ b p).1.tip ∧
     (deliver cfg₁ nd₁ b p).1.utxo = (deliver cfg₂ nd₂ b p).1.utxo ∧
     (deliver cfg₁ nd₁ b p).1.tip = b :: p :=
-  converges_aux hA cfg₁ cfg₂ g₁ g₂ b p h₁ h₂ v₁ v₂
+  converges_aux hA cfg₁ cfg₂ hp₁ hp₂ g₁ g₂ b p h₁ h₂ v₁ v₂
 
 /-- F-C04-a: the last sentence of the property fails for the code as it is.
 Witness: one block `A1` delivered on a fresh database (8 commits); the process
@@ -86,26 +90,70 @@ theorem converges_full_fails :
     ¬ ∀ (cfg : Cfg) (ops : List Op) (k : Nat),
         crashTip (A := FreeAlg) cfg ops k = plainTip (A := FreeAlg) cfg ops := by
   intro h
-  exact absurd (h ⟨true⟩ [.deliver ⟨1, [], false⟩ []] 5) (by decide)
+  exact absurd (h ⟨true, none⟩ [.deliver ⟨1, [], false⟩ []] 5) (by decide)
 
 /-- The same inside a reorganisation (A1 active, B1–B2 delivered, crash after the
 first disconnect commit): the node stays on genesis although B2 is stored. -/
 theorem converges_full_fails_reorg :
-    crashTip (A := FreeAlg) ⟨false⟩
+    crashTip (A := FreeAlg) ⟨false, none⟩
       [.deliver ⟨1, [], false⟩ [], .deliver ⟨2, [], false⟩ [],
        .deliver ⟨3, [], false⟩ [⟨2, [], false⟩]] 14 = some [] ∧
-    plainTip (A := FreeAlg) ⟨false⟩
+    plainTip (A := FreeAlg) ⟨false, none⟩
       [.deliver ⟨1, [], false⟩ [], .deliver ⟨2, [], false⟩ [],
        .deliver ⟨3, [], false⟩ [⟨2, [], false⟩]] = some [⟨3, [], false⟩, ⟨2, [], false⟩] := by
+  decide
+
+/-- The prune guard (`flushNeededAfterPrune`), commit level: when the in-memory
+last flush point IS the persisted marker `m` (what the fix of F-C04-b restores
+after a replay at start-up) and the block being connected is itself not in a
+pruned file, the connect commit that deletes the blocks `ps` — with the forced
+utxo flush exactly when some deleted block is at or above the marker's height —
+preserves the invariant.  (Node-level theorems above are for pruning off; with
+pruning on the model is tied to the code by the correspondence run only.) -/
+theorem prune_guard_preserves (A : UtxoAlg) (img : Image A) (hi : Inv img) (n m : Chain) (ps : List Chain)
+    (hm : img.marker = some m) (hn : n ≠ []) (ht : n.tail = img.best) (hst : n ∈ img.stored)
+    (hnp : n ∉ ps) (hrow : n ∈ keys img.rows) :
+    Inv (apply img (.connectPrune n ps
+      (if ps.any (fun x => decide (m.length ≤ x.length)) then some (utxoOf A n) else none))) := by
+  have he : effMarker img = m := by simp [effMarker, hm]
+  by_cases hf : ps.any (fun x => decide (m.length ≤ x.length)) = true
+  · rw [if_pos hf]
+    exact safe_preserves hi ⟨hn, ht, hst, hnp, hrow, rfl⟩
+  · rw [if_neg hf]
+    refine safe_preserves hi ⟨hn, ht, hst, hnp, hrow, by rw [hm]; simp, ?_⟩
+    intro x hx _
+    rw [he]
+    have : ¬ (m.length ≤ x.length) := by
+      intro hle
+      exact hf (List.any_eq_true.mpr ⟨x, hx, by simpa using hle⟩)
+    omega
+
+/-- F-C04-b (fixed in the tree, commit 0272d521): why the guard has to compare
+with the persisted marker.  Image: chain 1–3 active, marker at block 1, all
+stored.  Had the guard compared the deleted heights with the tip (height 3), a
+prune of blocks 1–2 while connecting block 4 would not flush — and the
+resulting image cannot be reopened: the replay from the marker needs block 2. -/
+theorem prune_guard_needs_marker :
+    let b : Nat → Blk := fun i => ⟨i, [], false⟩
+    let c3 : Chain := [b 3, b 2, b 1]
+    let img : Image FreeAlg :=
+      { created := true, stored := [b 4 :: c3, c3, [b 2, b 1], [b 1], []],
+        rows := [([], genesisStatus), ([b 1], {valid := true}), ([b 2, b 1], {valid := true}),
+                 (c3, {valid := true}), (b 4 :: c3, {valid := true})],
+        best := c3, journal := [], utxo := [b 1], marker := some [b 1], fileMax := 0, files := [] }
+    (∃ rn, recover ⟨false, none⟩ img = .ok rn ∧ rn.tip = c3) ∧
+    recoverErr (recover ⟨false, none⟩ (apply img (.connectPrune (b 4 :: c3) [[b 2, b 1], [b 1]] none)))
+      = some .blockMissing := by
+  refine ⟨⟨_, rfl, rfl⟩, ?_⟩
   decide
 
 /-- The hypotheses are satisfiable: the free algebra (state = list of connected
 blocks) is lawful, a fresh node exists and is `Good`. -/
 example : FreeAlg.Lawful := fun _ _ => rfl
 
-example : ∃ nd0 : Node FreeAlg, recover ⟨true⟩ (Image.empty FreeAlg) = .ok nd0 ∧
+example : ∃ nd0 : Node FreeAlg, recover ⟨true, none⟩ (Image.empty FreeAlg) = .ok nd0 ∧
     Good (Image.empty FreeAlg) nd0 := by
-  obtain ⟨nd0, r, g, _⟩ := recover_empty_spec (A := FreeAlg) ⟨true⟩
+  obtain ⟨nd0, r, g, _⟩ := recover_empty_spec (A := FreeAlg) ⟨true, none⟩
   exact ⟨nd0, r, g⟩
 
 /-! ### pins -/
